@@ -58,9 +58,11 @@ inline long double model_value(const double * sizes, int n, const std::vector<lo
 {
     long double lin = 0;
     for (int k = 0; k < n; ++k) lin = lin * sizes[k] + c[k];
-    // deliberately not representable in float (nor exactly in double): a layer that rounds stored values through a
-    // narrower type is visible; both the filler and the interpreter round this one long double value to the storage type
-    return 0.1L + 64.3L * j + lin / 3.0L;
+    // not representable in float (30 fractional bits), so a layer that rounds stored doubles through a narrower type is
+    // visible; but a dyadic rational that every floating-point unit - including valgrind's 64-bit emulation of long
+    // double - computes exactly, so the filler and the interpreter agree in every build and under every tool
+    const long idx = static_cast<long>(lin) + j;
+    return 0.5L + 64.0L * j + lin + static_cast<long double>(1 + idx % 7) * 9.313225746154785e-10L /* 2^-30 */;
 }
 
 inline uint64_t ref_rowmajor(const double * sizes, int n, const std::vector<long double> & c)
